@@ -90,7 +90,17 @@ inductive SPC
   | cancelled     -- pthread_cancel()ed by dsh()
 deriving DecidableEq, Repr
 
-inductive Own | none | d | w (i : Nat) | s
+inductive Own | none | d | w (i : Nat) | s | g
+deriving DecidableEq, Repr
+
+/-- program counter of the watchdog `_wdog` as far as it takes part in the protocol — only with the repair of
+    F07-STALEID (`St.sw`): it holds thd_mutex around the test of each slot (and the pthread_kill) -/
+inductive GPC
+  | off               -- not created (or: the pinned watchdog, which touches no protocol object)
+  | at (k : Nat)      -- scanning: next lock(thd_mutex) for slot k
+  | inside (k : Nat)  -- holds thd_mutex for slot k; next unlock
+  | sleeping          -- in sleep(WDOG_POLL): a cancellation point
+  | ended             -- cancelled
 deriving DecidableEq, Repr
 
 structure St where
@@ -116,9 +126,17 @@ structure St where
   fwds : List Nat     -- hosts SIGINT was forwarded to
   ncanc : Nat         -- the number printed by the most recent "Canceled %d pending threads"
   exited : Option Nat -- exit() was called with this status
+  sw : Bool           -- shutdown order of the repair of F07-STALEID (probed by behaviour): the watchdog is joinable,
+                      --   takes thd_mutex per slot, and dsh() cancels and joins it before it cancels the signals
+                      --   thread (and before t[] is freed); false = the pinned source
+  gpc : GPC
+  gcan : Bool         -- pthread_cancel(thread_wdog) was called (deferred: acts when the watchdog sleeps)
+  gjoin : Bool        -- pthread_join(thread_wdog) has returned
 deriving Repr
 
-inductive DAct | createS | lock | wait | wake (spurious : Bool) | relock | create (j : Nat) | unlock | cancelS | ret
+inductive DAct
+  | createG | createS | lock | wait | wake (spurious : Bool) | relock | create (j : Nat) | unlock
+  | cancelG | joinG | cancelS | ret
 deriving DecidableEq, Repr
 
 inductive WAct
@@ -132,15 +150,21 @@ deriving DecidableEq, Repr
 inductive EAct | deliver (g : Sg) | tick (v : Nat)
 deriving DecidableEq, Repr
 
-inductive Label | d (a : DAct) | w (i : Nat) (a : WAct) | s (a : SAct) | e (a : EAct)
+/-- the watchdog: lock/unlock of thd_mutex around a slot, return from sleep (driven by the clock) -/
+inductive GAct | lockT | unlockT | wake
+deriving DecidableEq, Repr
+
+inductive Label | d (a : DAct) | w (i : Nat) (a : WAct) | s (a : SAct) | e (a : EAct) | g (a : GAct)
 deriving DecidableEq, Repr
 
 def Label.spurious : Label → Bool
   | .d (.wake sp) => sp
   | _ => false
 
+/-- steps of the environment: deliveries, clock ticks, and the watchdog's return from sleep (driven by the clock) -/
 def Label.isEnv : Label → Bool
   | .e _ => true
+  | .g .wake => true
   | _ => false
 
 /-! ## pieces of the transition function -/
@@ -177,8 +201,11 @@ def drainTest (s : St) : St :=
   if s.tc > 0 then { s with dpc := .dwait } else { s with dpc := .dunlock }
 
 def dStep (s : St) : DAct → Option St
+  | .createG => match s.gpc, s.spc with
+      | .off, .off => if s.sw then some { s with gpc := if 0 < s.ts.length then .at 0 else .sleeping } else none
+      | _, _ => none
   | .createS => match s.spc with
-      | .off => some { s with spc := .waiting }
+      | .off => if s.sw = true ∧ s.gpc = .off then none else some { s with spc := .waiting }
       | _ => none
   | .lock => match s.dpc, s.own with
       | .top, .none => if s.spc = .off then none else some (roomTest { s with own := .d })
@@ -215,8 +242,18 @@ def dStep (s : St) : DAct → Option St
           else none
       | .dunlock => some { s with own := .none, dpc := .finishing }
       | _ => none
+  | .cancelG => match s.dpc with
+      | .finishing =>
+          if s.sw = true ∧ s.gcan = false then
+            some { s with gcan := true, gpc := if s.gpc = .sleeping then .ended else s.gpc }
+          else none
+      | _ => none
+  | .joinG => match s.dpc with
+      | .finishing => if s.gcan = true ∧ s.gpc = .ended ∧ s.gjoin = false then some { s with gjoin := true } else none
+      | _ => none
   | .cancelS => match s.dpc with
-      | .finishing => if s.spc = .cancelled then none else some { s with spc := .cancelled }
+      | .finishing =>
+          if s.spc = .cancelled ∨ (s.sw = true ∧ s.gjoin = false) then none else some { s with spc := .cancelled }
       | _ => none
   | .ret => match s.dpc with
       | .finishing => if s.spc = .cancelled then some { s with dpc := .returned } else none
@@ -329,6 +366,19 @@ def eStep (s : St) : EAct → Option St
   | .tick v => if s.now < v then some { s with now := v } else none
 
 /-- once `exit()` was called nothing happens any more -/
+def gStep (s : St) : GAct → Option St
+  | .lockT => match s.thd, s.gpc with
+      | .none, .at k => some { s with thd := .g, gpc := .inside k }
+      | _, _ => none
+  | .unlockT => match s.gpc with
+      | .inside k =>
+          some { s with thd := .none,
+                        gpc := if k + 1 < s.ts.length then .at (k + 1) else if s.gcan then .ended else .sleeping }
+      | _ => none
+  | .wake => match s.gpc with
+      | .sleeping => some { s with gpc := if 0 < s.ts.length then .at 0 else .sleeping }
+      | _ => none
+
 def step (s : St) (l : Label) : Option St :=
   if s.exited.isSome then none else
   match l with
@@ -336,19 +386,21 @@ def step (s : St) (l : Label) : Option St :=
   | .w i a => wStep s i a
   | .s a => sStep s a
   | .e a => eStep s a
+  | .g a => gStep s a
 
-def init (v : Variant) (g : Bool) (f n : Nat) (batch : Bool) (now : Nat) : St :=
+def init (v : Variant) (g sw : Bool) (f n : Nat) (batch : Bool) (now : Nat) : St :=
   { v := v, f := f, batch := batch, g := g, i := 0, dpc := if 0 < n then .top else .dtop, tc := 0, own := .none,
     thd := .none, sig := false, ws := List.replicate n .idle, ts := List.replicate n .new, spc := .off,
-    pend := [], now := now, last := 0, listed := [], fwds := [], ncanc := 0, exited := none }
+    pend := [], now := now, last := 0, listed := [], fwds := [], ncanc := 0, exited := none,
+    sw := sw, gpc := .off, gcan := false, gjoin := false }
 
 /-- executions: the labels performed so far (oldest first) and the state reached -/
 inductive Exec (s0 : St) : List Label → St → Prop
   | nil : Exec s0 [] s0
   | snoc {ls s l s'} : Exec s0 ls s → step s l = some s' → Exec s0 (ls ++ [l]) s'
 
-def Reach (v : Variant) (g : Bool) (f n : Nat) (b : Bool) (t0 : Nat) (s : St) : Prop :=
-  ∃ ls, Exec (init v g f n b t0) ls s
+def Reach (v : Variant) (g sw : Bool) (f n : Nat) (b : Bool) (t0 : Nat) (s : St) : Prop :=
+  ∃ ls, Exec (init v g sw f n b t0) ls s
 
 def run (s : St) : List Label → Option St
   | [] => some s
@@ -360,7 +412,8 @@ def Final (s : St) : Prop := s.dpc = .returned ∨ s.exited.isSome = true
 /-! ## enabled sets (what the harness calls the runnable set) -/
 
 def dActs (s : St) : List DAct :=
-  [.createS, .lock, .wait, .wake false, .relock, .create (skip s.ts s.i), .unlock, .cancelS, .ret]
+  [.createG, .createS, .lock, .wait, .wake false, .relock, .create (skip s.ts s.i), .unlock, .cancelG, .joinG,
+   .cancelS, .ret]
 def wActs : List WAct :=
   [.lockT, .time, .unlockT, .connectBegin, .connectEnd true, .connectEnd false, .destroyBegin, .destroyEnd, .lock,
    .signal, .unlock]
@@ -371,6 +424,7 @@ def sActs (s : St) : List SAct :=
 def dEnabled (s : St) : Bool := (dActs s).any fun a => (step s (.d a)).isSome
 def wEnabled (s : St) (i : Nat) : Bool := wActs.any fun a => (step s (.w i a)).isSome
 def sEnabled (s : St) : Bool := (sActs s).any fun a => (step s (.s a)).isSome
+def gEnabled (s : St) : Bool := [GAct.lockT, .unlockT, .wake].any fun a => (step s (.g a)).isSome
 def spuriousEnabled (s : St) : Bool := (step s (.d (.wake true))).isSome
 
 end PdshVerif.Dsh.Sig
